@@ -602,6 +602,12 @@ func addTransceiverSDP(
 					Address: "0.0.0.0",
 				},
 			},
+			// A rejected section still identifies its transceiver (JSEP keeps a=mid on every
+			// m= section) and carries its direction, so that hasLocalDescriptionChanged finds it.
+			Attributes: []sdp.Attribute{
+				{Key: sdp.AttrKeyMID, Value: midValue},
+				{Key: transceiver.Direction().String()},
+			},
 		})
 
 		return false, nil
